@@ -94,7 +94,7 @@ Definition walk_op (enc : Z -> list Z) (p : panel) (opt : opts) (s : wstate) (x 
   let k' := ctl_run (ws_ctl s) ev in
   let o' := if ok then spec_op_orient (ws_o s) op else ws_o s in
   let sl' := if ok then match op with PSleep => true | PWake => false | _ => ws_sleeping s end else ws_sleeping s in
-  let exp := spec_op_writes enc p (ws_o s) op in
+  let exp := spec_op_writes_fast enc p (ws_o s) op in
   {| ws_ctl := k'; ws_o := o'; ws_sleeping := sl';
      ws_exp_rev := rev_append exp (ws_exp_rev s);
      ws_res := ws_res s && ok;
